@@ -345,7 +345,7 @@ Section Handlers.
               let who :=
                 match on_behalf with
                 | Some n => if negb (is_owner ch me) then inl (PErr (Some id) "FORBIDDEN")
-                            else if negb (has_connection (st c) (nu n)) then inl (PErr (Some id) "USER_NOT_REGISTERED")
+                            else if negb (local (nd n)) || negb (has_connection (st c) (nu n)) then inl (PErr (Some id) "USER_NOT_REGISTERED")
                             else inr n
                 | None => inr me
                 end in
@@ -788,6 +788,20 @@ Definition on_item (cfg : scfg) (h : N) (it : ritem) (c : ctx) : ctx :=
   | PanicPool | PanicDecode | RFuel => drop_conn h c
   end.
 
+(* route_m2s_private_payload: MOD_DIRECT from=<domain> to every connection of each distinct target *)
+Fixpoint dedup (l : list str) : list str :=
+  match l with
+  | [] => []
+  | x :: r => x :: filter (fun y => negb (list_eqb x y)) (dedup r)
+  end.
+Definition direct_msg (cfg : scfg) (payload : list N) : msg :=
+  build "MOD_DIRECT" [(bs "from", VStr (domain cfg)); (bs "length", VNum (N.of_nat (length payload)))].
+Definition direct_outs (cfg : scfg) (s : state) (targets : list str) (payload : list N) : list out :=
+  flat_map (fun t => match alookup t (router s) with
+                     | Some hs => map (fun h => OSend h (direct_msg cfg payload) (Some payload)) hs
+                     | None => []
+                     end) targets.
+
 (* ---------- operations ---------- *)
 Inductive op :=
 | Open (h : N)
@@ -795,7 +809,8 @@ Inductive op :=
 | BadFrame (h : N)                                   (* an undecodable header line: BAD_REQUEST + close *)
 | Bytes (h : N) (bytes : list N) (script : list moutcome) (hints : list (str * nid))
                                                      (* whole frames as written by the client *)
-| Hangup (h : N) (script : list moutcome) (hints : list (str * nid)).   (* the peer closes its end *)
+| Hangup (h : N) (script : list moutcome) (hints : list (str * nid))    (* the peer closes its end *)
+| Direct (targets : list str) (payload : list N).                      (* M2S_MOD_DIRECT accepted from the modulator *)
 
 Definition step (cfg : scfg) (s : state) (o : op) : state * list out :=
   match o with
@@ -825,6 +840,8 @@ Definition step (cfg : scfg) (s : state) (o : op) : state * list out :=
       let c := {| st := s; script := sc; hints := hi; outs := []; closing := [] |} in
       let c1 := teardown cfg h c in
       (st c1, outs c1)
+  | Direct targets payload =>
+      (s, direct_outs cfg s (dedup targets) payload)
   end.
 
 Fixpoint run (cfg : scfg) (s : state) (ops : list op) : list (list out) :=
